@@ -294,5 +294,66 @@ def count_norewind(lab):
     return bp.count([d["det"]], 3, delay=0.5), d
 
 
-CORPUS = dict(count_norewind=count_norewind, declared=declared, double_stage=double_stage, failpause=failpause, defer_failpause=defer_failpause, count2=count2, scan2=scan2, scan3=scan3, rel_scan2=rel_scan2, list_scan2=list_scan2, grid2x2=grid2x2, adaptive=adaptive, tune=tune,
+def norewind_section(lab):
+    """Events taken inside a rewindable_wrapper(False) section that is switched back on before the next checkpoint."""
+    import bluesky.preprocessors as bpp
+    from bluesky.utils import Msg
+
+    d = _std(lab)
+    m = d["m1"]
+
+    def point():
+        yield Msg("create", name="primary")
+        yield Msg("read", m)
+        yield Msg("save")
+
+    def section():
+        yield from point()
+        yield from point()
+
+    def plan():
+        yield Msg("open_run")
+        yield Msg("checkpoint")
+        yield from bpp.rewindable_wrapper(section(), False)
+        yield Msg("null", None, "after-section-1")
+        yield Msg("null", None, "after-section-2")
+        yield Msg("checkpoint")
+        yield from point()
+        yield Msg("close_run")
+
+    return plan(), d
+
+
+def configure_mid(lab):
+    """A device is re-configured in the middle of a run (new descriptor for its stream), more events follow before the next checkpoint."""
+    from bluesky.utils import Msg
+
+    d = _std(lab)
+    det, m = d["det"], d["m1"]
+
+    def point(name="primary", *objs):
+        yield Msg("create", name=name)
+        for o in objs:
+            yield Msg("read", o)
+        yield Msg("save")
+
+    def plan():
+        yield Msg("open_run")
+        yield Msg("checkpoint")
+        yield from point("primary", det, m)
+        yield from point("primary", det, m)
+        yield from point("other", det)
+        yield Msg("checkpoint")
+        yield Msg("configure", det, 7)
+        yield from point("primary", det, m)
+        yield from point("other", det)
+        yield Msg("null", None, "window")
+        yield Msg("checkpoint")
+        yield from point("primary", det, m)
+        yield Msg("close_run")
+
+    return plan(), d
+
+
+CORPUS = dict(norewind_section=norewind_section, configure_mid=configure_mid, count_norewind=count_norewind, declared=declared, double_stage=double_stage, failpause=failpause, defer_failpause=defer_failpause, count2=count2, scan2=scan2, scan3=scan3, rel_scan2=rel_scan2, list_scan2=list_scan2, grid2x2=grid2x2, adaptive=adaptive, tune=tune,
               fly1=fly1, bare=bare, cleanup=cleanup, staged_monitor=staged_monitor, nested_runs=nested_runs, flymon=flymon)
